@@ -307,6 +307,14 @@ Drop(v) ==
   /\ last' = [name |-> "Drop", args |-> <<v>>]
   /\ UNCHANGED <<bcC, bcDirty, bcPer, everShared, bcOf, intC, ghostFrom, cacheFrom, valDirty, precalc>>
 
+(* a BoundaryConditions object that no variable refers to goes out of scope *)
+DropBC(b) ==
+  /\ bcAlive[b] /\ UsersOf(b) = {}
+  /\ bcAlive' = [bcAlive EXCEPT ![b] = FALSE]
+  /\ use' = NoUse
+  /\ last' = [name |-> "DropBC", args |-> <<b>>]
+  /\ UNCHANGED <<bcC, bcDirty, bcPer, everShared, alive, bcOf, intC, ghostFrom, cacheFrom, valDirty, precalc>>
+
 Ops == {"add", "mul_scalar", "neg", "funceval"}
 
 Next ==
@@ -346,7 +354,8 @@ Emit == PrintT("@@ " \o ToJson(Projection))
 StateKey == ToJson(<<bcAlive, bcC, bcDirty, bcPer, everShared, alive, bcOf, intC, ghostFrom, cacheFrom,
                      valDirty, precalc, use>>)
 EmitEdge == PrintT("@@ " \o ToJson([src |-> StateKey, dst |-> StateKey', step |-> Projection']))
-Symm == Permutations(Vars) \cup Permutations(BCs)
+\* (the SYMMETRY set lives in FVLifecycleMC: TLC evaluates constant definitions eagerly, and the trace
+\*  specification instantiates this module with pools for which Permutations(...) would be astronomically large)
 Bounded == TLCGet("level") <= MaxDepth
 
 -----------------------------------------------------------------------------
